@@ -292,6 +292,20 @@ def exhaustive(tier):
     return True
 
 
+# ------------------------------------------------------------------ recorded finding D30
+def witnesses():
+    # nesting deeper than CPython's recursion limit: _parse_quoted_string recurses per level
+    return {"D30": {"k": "d", "s": "'\"" * 1000}}
+
+
+def known_class(case, obs, verdict):
+    raw = obs.get("raw", {}) if isinstance(obs, dict) else {}
+    s = case.get("s", "") if isinstance(case, dict) else ""
+    if case.get("k") in ("d", "s") and raw.get("exc") == "RecursionError" and sum(s.count(q) for q in "'\"") >= 300:
+        return "D30"
+    return None
+
+
 # ------------------------------------------------------------------ implementation side
 class _Budget(BaseException):
     pass
